@@ -13,7 +13,10 @@ T == ndJsonDeserialize("obs.ndjson")
 EntAt(h, alias) == LET S == {k \in DOMAIN h.ents : h.ents[k].alias = alias} IN h.ents[CHOOSE k \in S : TRUE]
 Aliases(h) == {h.ents[k].alias : k \in DOMAIN h.ents}
 
+\* an entry with result "user" is the directory after the user exchanged key material by hand and before the run of that step: nothing
+\* is demanded of it (the old certificate cannot carry the new key); the run that follows has to keep the key the user put there
 StepComplaints(prev, next, i) ==
+  IF next.result = "user" THEN {} ELSE
   UNION { LET p == EntAt(prev, a)  n == EntAt(next, a) IN
           { [step |-> i, alias |-> a, what |-> w] : w \in
                (IF p.hasPrivate /\ p.keyId # "" /\ ~(n.hasPrivate /\ n.keyId = p.keyId) THEN {"the stored private key did not stay the same key"} ELSE {})
